@@ -83,6 +83,13 @@ CHECKS = {
             'Every value must be finite or a std::exception thrown; a sanitizer report, signal or watchdog expiry is a violation.',
             'Only the listed families and loci are covered; worlds rejected by the constructor are left to C12.',
             'DESIGN.md section 3 C13'),
+    'C12': ('fault_enumeration', 'E4',
+            'exhaustive enumeration of document faults: every single deviation (byte level: prefix / deletion / transposition / token substitution; JSON-tree level: delete / replace by 7|14 constants / rename key / duplicate element at EVERY node) of base documents, all short token strings, all list-length combinations, formatting variants; each candidate loaded in the ASan+UBSan build, independent schema verdict from Python jsonschema',
+            'Every candidate document of the stated classes is handed to World::World in the sanitizer build. Allowed outcomes are a built world (then probed with 160 queries) or a std::exception with a '
+            'message; a signal, sanitizer report, foreign exception or watchdog expiry is a violation of that candidate. Documents that Python jsonschema finds invalid against the frozen published schema, '
+            'and list families with inconsistent lengths, must be rejected; formatting variants (whitespace, comments at every token boundary, key orders) must answer bit-identically to the canonical file.',
+            'Single deviations only (pairs are not enumerated); base documents as listed; the schema verdict is used one way (invalid => reject).',
+            'DESIGN.md section 3 C12'),
 }
 NOT_YET = {}
 
